@@ -21,24 +21,25 @@ theorem scan_keys (rec : RecT) (ms : List Mem) :
   · have : (flat fm).length = 0 := by rw [h.fm_eq]; exact (flat_piecesOpen_len _).mpr hz
     simp only [this, gt_iff_lt, Nat.lt_irrefl, if_false]
     exact ⟨h.coords, h.geoms, h.geom, h.feats, by simp [h.mem, flat, Keys.members, hz],
-      by simp [h.mem, hasPropsOf, decodeObj, Keys.hasProps, hz]⟩
+      by simp [h.mem, hasPropsOf, decodeObj, Keys.hasProps, hz], fun hne => absurd hz hne, fun _ => h.mem⟩
   · have : (flat fm).length > 0 := by
       rw [h.fm_eq]; exact Nat.pos_of_ne_zero (fun e => hz ((flat_piecesOpen_len _).mp e))
     simp only [this, if_true]
-    refine ⟨h.coords, h.geoms, h.geom, h.feats, ?_, ?_⟩
+    refine ⟨h.coords, h.geoms, h.geom, h.feats, ?_, ?_, ?_, fun h0 => absurd h0 hz⟩
     · simp only [h.fm_eq, members_text _ hz, Keys.members]
       simp [hz]
     · simp only [h.fm_eq, hasPropsOf, decode_members _ hz, Keys.hasProps]
+    · intro _; simp only [h.fm_eq]; exact decode_members _ hz
 
 /-- what is assumed about the kinds whose bridge is not proved here -/
-structure KindHyps (rec : RecT) (o : POpts) (fuel : Nat) : Prop where
-  multiPoint : ∀ gk ms raw, (scanKeys ms).type = some (.str raw "MultiPoint") → KeysRel gk (scanKeys ms) →
+structure KindHyps (rec : RecT) (o : POpts) (fuel : Nat) (ms : List Mem) : Prop where
+  multiPoint : ∀ gk raw, (scanKeys ms).type = some (.str raw "MultiPoint") → KeysRel gk (scanKeys ms) →
     AgreeU (PGen.parseJSONMultiPoint (mops rec) (some gk) (some (optsG o))) (parse o (fuel + 1) (.obj ms))
-  multiLineString : ∀ gk ms raw, (scanKeys ms).type = some (.str raw "MultiLineString") → KeysRel gk (scanKeys ms) →
+  multiLineString : ∀ gk raw, (scanKeys ms).type = some (.str raw "MultiLineString") → KeysRel gk (scanKeys ms) →
     AgreeU (PGen.parseJSONMultiLineString (mops rec) (some gk) (some (optsG o))) (parse o (fuel + 1) (.obj ms))
-  multiPolygon : ∀ gk ms raw, (scanKeys ms).type = some (.str raw "MultiPolygon") → KeysRel gk (scanKeys ms) →
+  multiPolygon : ∀ gk raw, (scanKeys ms).type = some (.str raw "MultiPolygon") → KeysRel gk (scanKeys ms) →
     AgreeU (PGen.parseJSONMultiPolygon (mops rec) (some gk) (some (optsG o))) (parse o (fuel + 1) (.obj ms))
-  feature : ∀ gk ms raw, (scanKeys ms).type = some (.str raw "Feature") → KeysRel gk (scanKeys ms) →
+  feature : ∀ gk raw, (scanKeys ms).type = some (.str raw "Feature") → KeysRel gk (scanKeys ms) →
     AgreeU (PGen.parseJSONFeature (mops rec) (some gk) (some (optsG o))) (parse o (fuel + 1) (.obj ms))
 
 /-- finiteness of the ring positions of a Polygon document (follows from NoOverflowLit) -/
@@ -58,8 +59,10 @@ theorem parse_arm (o : POpts) (fuel : Nat) (ms : List Mem) (raw ty : String) (h 
   · simp only [mGColl]; rfl
   · simp only [mFColl]; rfl
 
-theorem parseJSON_eq (rec : RecT) (o : POpts) (fuel : Nat) (hrec : RecOK rec o fuel) (hk : KindHyps rec o fuel)
-    (ms : List Mem) (hfin : PolyFin ms) :
+theorem parseJSON_eq (rec : RecT) (o : POpts) (fuel : Nat) (hrec : RecOK rec o fuel)
+    (ms : List Mem) (hk : KindHyps rec o fuel ms) (hfin : PolyFin ms)
+    (hJg : ∀ items, (scanKeys ms).geometries = some (.arr items) → ∀ v ∈ items, JOK v = true)
+    (hJf : ∀ items, (scanKeys ms).features = some (.arr items) → ∀ v ∈ items, JOK v = true) :
     AgreeU (PGen.parseJSON (mops rec) [Piece.doc (.obj ms)] (some (optsG o))) (parse o (fuel + 1) (.obj ms)) := by
   obtain ⟨gk, fm, rT, hf, hty, hrel⟩ := scan_keys rec ms
   unfold PGen.parseJSON
@@ -96,17 +99,17 @@ theorem parseJSON_eq (rec : RecT) (o : POpts) (fuel : Nat) (hrec : RecOK rec o f
       by_cases c3 : ty = "Polygon"
       · simp only [c3, decide_true, if_true]; simp; rw [harm.2.2.1 c3]; exact (polygon_eq rec K o _ hrel hfin).toU
       by_cases c4 : ty = "Feature"
-      · subst c4; simp; exact hk.feature K ms raw ht hrel
+      · subst c4; simp; exact hk.feature K raw ht hrel
       by_cases c5 : ty = "MultiPoint"
-      · subst c5; simp; exact hk.multiPoint K ms raw ht hrel
+      · subst c5; simp; exact hk.multiPoint K raw ht hrel
       by_cases c6 : ty = "MultiLineString"
-      · subst c6; simp; exact hk.multiLineString K ms raw ht hrel
+      · subst c6; simp; exact hk.multiLineString K raw ht hrel
       by_cases c7 : ty = "MultiPolygon"
-      · subst c7; simp; exact hk.multiPolygon K ms raw ht hrel
+      · subst c7; simp; exact hk.multiPolygon K raw ht hrel
       by_cases c8 : ty = "GeometryCollection"
-      · simp only [c8, decide_true, if_true]; simp; rw [harm.2.2.2.1 c8]; exact gcoll_eq rec o fuel hrec K _ hrel
+      · simp only [c8, decide_true, if_true]; simp; rw [harm.2.2.2.1 c8]; exact gcoll_eq rec o fuel hrec K _ hrel hJg
       by_cases c9 : ty = "FeatureCollection"
-      · simp only [c9, decide_true, if_true]; simp; rw [harm.2.2.2.2 c9]; exact fcoll_eq rec o fuel hrec K _ hrel
+      · simp only [c9, decide_true, if_true]; simp; rw [harm.2.2.2.2 c9]; exact fcoll_eq rec o fuel hrec K _ hrel hJf
       · have : parse o (fuel + 1) (.obj ms) = .error .typeUnknown := by
           rw [parse]; simp only [ht]
           all_goals (split <;> simp_all)
